@@ -80,6 +80,31 @@ func scanSites(p *Program, rule InventoryRule) []site {
 		}
 		for _, b := range fn.Blocks {
 			for _, ins := range b.Instrs {
+				// statement-level sources of nondeterminism (C14)
+				stmtHit, what := false, ""
+				switch x := ins.(type) {
+				case *ssa.Range:
+					if _, isMap := x.X.Type().Underlying().(*types.Map); isMap && rule.Kind == "maprange" {
+						stmtHit, what = true, "range over "+strings.ReplaceAll(x.X.Type().String(), modPath+"/", "")
+					}
+				case *ssa.Go:
+					if rule.Kind == "gostmt" {
+						stmtHit, what = true, "go statement"
+					}
+				case *ssa.Select:
+					if rule.Kind == "selectstmt" {
+						stmtHit, what = true, "select statement"
+					}
+				}
+				if stmtHit {
+					ps := p.Prog.Fset.Position(ins.Pos())
+					owner := fn
+					for owner.Parent() != nil {
+						owner = owner.Parent()
+					}
+					out = append(out, site{Fn: relFuncName(owner), Pos: fmt.Sprintf("%s:%d", strings.TrimPrefix(ps.Filename, repoDir()+"/"), ps.Line), What: what})
+					continue
+				}
 				ci, ok := ins.(ssa.CallInstruction)
 				if !ok {
 					continue
@@ -104,8 +129,19 @@ func scanSites(p *Program, rule InventoryRule) []site {
 						hit = true
 					}
 				case "callers":
-					if strings.Contains(strings.ReplaceAll(name, modPath+"/", ""), rule.Family) {
-						hit = true
+					rel := strings.ReplaceAll(name, modPath+"/", "")
+					for _, fam := range strings.Split(rule.Family, "|") {
+						if fam == "" {
+							continue
+						}
+						// a family that starts with "=" must be a prefix of the callee's name (e.g. "=os." does not match "cosmos.")
+						if strings.HasPrefix(fam, "=") {
+							if strings.HasPrefix(rel, fam[1:]) {
+								hit = true
+							}
+						} else if strings.Contains(rel, fam) {
+							hit = true
+						}
 					}
 				case "argtype":
 					if strings.Contains(strings.ReplaceAll(name, modPath+"/", ""), rule.Family) && rule.Arg < len(c.Args) {
@@ -155,11 +191,35 @@ func matchAny(name string, pats []string) bool {
 		if ok, _ := path.Match(p, name); ok {
 			return true
 		}
+		if strings.Contains(p, "*") && wildMatch(p, name) {
+			return true
+		}
 		if strings.HasSuffix(p, "*") && strings.HasPrefix(name, strings.TrimSuffix(p, "*")) {
 			return true
 		}
 	}
 	return false
+}
+
+// wildMatch: '*' matches any run of characters (including '/'), everything else literally.
+func wildMatch(pat, name string) bool {
+	parts := strings.Split(pat, "*")
+	if !strings.HasPrefix(name, parts[0]) {
+		return false
+	}
+	name = name[len(parts[0]):]
+	for i := 1; i < len(parts); i++ {
+		pt := parts[i]
+		if i == len(parts)-1 {
+			return strings.HasSuffix(name, pt)
+		}
+		j := strings.Index(name, pt)
+		if j < 0 {
+			return false
+		}
+		name = name[j+len(pt):]
+	}
+	return name == ""
 }
 
 func runInventory(p *Program, cx *Contracts, cfg *PropConfig) []*Obligation {
